@@ -22,16 +22,11 @@
 //!     queries on every shard. Output `race`; only the oracle judges. The scripted node runs on its own OS thread
 //!     and runtime (env C20_NODE_SAME_RUNTIME / C20_RACE_CURRENT_THREAD are developer switches).
 //!
-//! Watchdog: a pool/race case that does not finish within 25 s is abandoned, logged (with the node's view) to
-//! /verif/work/C20-hangs.log and run once more; only a second hang is reported (`HANG` + oracle failure).
-//! Background: on the multi-thread runtime about 2 in 1000 race cases hang in a `B` step right after a `K`:
-//! a query submitted while the connection's router is terminating never completes (see the report of C20;
-//! this concerns C10, not the keyspace property, so it is tolerated here once).
-//!
-//! ORACLE (at the node, independent of the model): a non-USE query submitted after `use_keyspace(k)` returned
-//! Ok arrives on a connection whose server-side keyspace is k (or a keyspace of a later `use_keyspace` call that
-//! had started before the query arrived - a failed call may still switch connections); a name outside
-//! `[A-Za-z0-9_]{1,48}` never appears in any frame; every `USE` statement is exactly `USE name` / `USE "name"`.
+//! Watchdog (hard oracle): a pool/race case still unfinished after 25 s is given 60 s more ON THE SAME RUN (slowness
+//! is tolerated, nothing is re-run); unfinished after that = a request or use_keyspace call that never completes
+//! = `HANG` + oracle failure (details in /verif/work/C20-hangs.log). History: this watchdog found the stranded
+//! submit-channel task of the connection router (a query submitted while the router terminates never completed,
+//! ~2 in 1000 race cases on the multi-thread runtime), repaired in /repo by 8b0b75c.
 use crate::mocknode::{
     Parsed, RESP_ERROR, RESP_READY, RESP_RESULT, RESP_SUPPORTED, body_error, body_set_keyspace, body_supported_ext, body_void, frame,
     parse_request,
@@ -1027,43 +1022,57 @@ pub fn run(case: &str, ctx: &mut Ctx) -> String {
             rt.block_on(run_resp(&w, ctx)).unwrap_or_else(|| "bad-case".into())
         }
         Some(kind @ ("pool" | "race")) if w.len() == 5 => {
-            // Watchdog: no step of a script can legitimately take longer than a few seconds (the longest is
-            // the pool's own 5 s USE timeout). If a case does not finish in 25 s it is abandoned, logged to
-            // /verif/work/C20-hangs.log and run once more from scratch; only a second hang is reported.
+            // Watchdog (a hard oracle): no step of a script can legitimately take longer than a few seconds (the
+            // longest is the pool's own 5 s USE timeout). A case that has not finished after 25 s gets a second
+            // chance on the SAME run - the harness just keeps waiting another 60 s, so mere slowness of a loaded
+            // machine is tolerated, but nothing is re-run and a request that never completes is never masked.
+            // Still unfinished after that = a request (or use_keyspace call) hangs: oracle failure.
             let race = kind == "race";
-            for attempt in 0..2 {
-                let rt = if race && std::env::var_os("C20_RACE_CURRENT_THREAD").is_none() {
-                    tokio::runtime::Builder::new_multi_thread().worker_threads(3).enable_all().build().unwrap()
-                } else {
-                    tokio::runtime::Builder::new_current_thread().enable_all().build().unwrap()
-                };
-                let progress = Mutex::new(String::new());
-                let peek: Mutex<Option<Arc<Mutex<State>>>> = Mutex::new(None);
-                let mut local = Ctx::default();
-                let res = rt.block_on(async { tokio::time::timeout(Duration::from_secs(25), run_pool(&w, race, &progress, &peek, &mut local)).await });
-                rt.shutdown_timeout(Duration::from_secs(2));
-                ctx.oracle_failures.append(&mut local.oracle_failures);
-                match res {
-                    Ok(r) => return r.unwrap_or_else(|| "bad-case".into()),
-                    Err(_) => {
-                        use std::io::Write;
-                        if let Ok(mut f) = std::fs::OpenOptions::new().create(true).append(true).open("/verif/work/C20-hangs.log") {
-                            let _ = writeln!(f, "attempt {} hung at {}: {}", attempt, progress.lock().unwrap(), case);
-                            if let Some(st) = peek.lock().unwrap().as_ref()
-                                && let Ok(st) = st.lock()
-                            {
-                                let conns: Vec<String> =
-                                    st.conns.iter().enumerate().map(|(i, c)| format!("#{} shard={:?} live={} answered={} ks={:?}", i, c.shard, c.live, c.answered, c.ks)).collect();
-                                let answered: Vec<u64> = st.queries.iter().map(|q| q.tag).collect();
-                                let tail: Vec<&String> = st.texts.iter().rev().take(12).collect();
-                                let _ = writeln!(f, "    node: conns [{}]; queries answered {:?}; last texts (newest first) {:?}", conns.join("; "), answered, tail);
-                            }
-                        }
+            let rt = if race && std::env::var_os("C20_RACE_CURRENT_THREAD").is_none() {
+                tokio::runtime::Builder::new_multi_thread().worker_threads(3).enable_all().build().unwrap()
+            } else {
+                tokio::runtime::Builder::new_current_thread().enable_all().build().unwrap()
+            };
+            let progress = Mutex::new(String::new());
+            let peek: Mutex<Option<Arc<Mutex<State>>>> = Mutex::new(None);
+            let mut local = Ctx::default();
+            let log = |what: &str| {
+                use std::io::Write;
+                if let Ok(mut f) = std::fs::OpenOptions::new().create(true).append(true).open("/verif/work/C20-hangs.log") {
+                    let _ = writeln!(f, "{} at {}: {}", what, progress.lock().unwrap(), case);
+                    if let Some(st) = peek.lock().unwrap().as_ref()
+                        && let Ok(st) = st.lock()
+                    {
+                        let conns: Vec<String> =
+                            st.conns.iter().enumerate().map(|(i, c)| format!("#{} shard={:?} live={} answered={} ks={:?}", i, c.shard, c.live, c.answered, c.ks)).collect();
+                        let answered: Vec<u64> = st.queries.iter().map(|q| q.tag).collect();
+                        let tail: Vec<&String> = st.texts.iter().rev().take(12).collect();
+                        let _ = writeln!(f, "    node: conns [{}]; queries answered {:?}; last texts (newest first) {:?}", conns.join("; "), answered, tail);
                     }
                 }
+            };
+            let res = rt.block_on(async {
+                let fut = run_pool(&w, race, &progress, &peek, &mut local);
+                tokio::pin!(fut);
+                match tokio::time::timeout(Duration::from_secs(25), &mut fut).await {
+                    Ok(r) => Some(r),
+                    Err(_) => {
+                        log("slow (still running after 25 s, waiting 60 s more)");
+                        tokio::time::timeout(Duration::from_secs(60), &mut fut).await.ok()
+                    }
+                }
+            });
+            rt.shutdown_timeout(Duration::from_secs(2));
+            ctx.oracle_failures.append(&mut local.oracle_failures);
+            match res {
+                Some(r) => r.unwrap_or_else(|| "bad-case".into()),
+                None => {
+                    log("HANG (unfinished after 85 s)");
+                    let at = progress.lock().unwrap().clone();
+                    ctx.fail(format!("a request or use_keyspace call never completed: the case was still at {} after 85 s", at));
+                    "HANG".into()
+                }
             }
-            ctx.fail("the case did not finish within 25 s twice (see /verif/work/C20-hangs.log)");
-            "HANG".into()
         }
         _ => "bad-case".into(),
     }
